@@ -207,21 +207,52 @@ def r5(F, R):
             if m:
                 out[m.group(1)] = o
         return out
-    # selection closure(s): bool closures over event::Scenario inside test_case
-    sel = [nb for nb in F.nested(b) if nb is not b and nb.kind == "Closure" and nb.locals[0] == "bool"]
+    # which events may be passed over when looking (from the end) for the event that decides the outcome — decided on deep
+    # path tables: of the bool selection closure(s) (`events.iter().rev().find(|ev| !matches!(..))`), or, for the explicit
+    # loop spelling, of the routine that loops over the reversed events (a path that goes round the loop skipped its event)
+    from . import deep as D
+    fam = roles.family(F, b)
+
+    def shape(dp, p, root_pred):
+        d = {}
+        for a, o in p.conds:
+            if a[0] == "discr" and isinstance(o, str) and root_pred(a[1]):
+                adt = dp.adt_of.get(a, "")
+                if adt.startswith("event::"):
+                    d[adt.rsplit("::", 1)[-1]] = o
+        return d
+
+    def harmless(d):
+        return d.get("Scenario") == "Log" or (d.get("Scenario") == "Hook" and set((d.get("Hook") or "?").split("|")) <= {"Passed", "Started"} and d.get("HookType") in (None, "After"))
+    sel = [nb for nb in fam if nb.kind == "Closure" and nb.locals[0] == "bool" and any("event::RetryableScenario" in ty or "event::Scenario" in ty for ty in nb.locals[1:nb.arg_count + 1])]
     skipped_failed = []
     n_sel = 0
     for kb in sel:
-        for p in A.enumerate_paths(kb):
-            d = dec(p)
+        dp = D.Deep(F, kb, max_paths=400)
+        for p in dp.run():
+            d = shape(dp, p, lambda t: D.mentions(t, lambda x: x == ("arg", 2)))
             if not d:
                 continue
             n_sel += 1
-            if p.ret is False:
-                # an event may be skipped only if it is positively known to be a Log or a non-failing hook event
-                harmless = d.get("Scenario") == "Log" or (d.get("Scenario") == "Hook" and d.get("Hook") in ("Passed", "Started", "Passed|Started", "Started|Passed"))
-                if not harmless:
+            if p.ret == ("const", False) and not harmless(d):
+                skipped_failed.append(d)
+    if not sel:
+        for fb in fam:
+            if fb.is_coroutine or not any(callee_is(t, r"Iterator::next$") and "Rev<" in (op_fn(t["func"]) or {}).get("self", "") for _, t in fb.calls()):
+                continue
+            dp = D.Deep(F, fb, inline=False, max_paths=400)
+            for p in dp.run():
+                nx = [("call", e[1], e[2], e[4]) for e in p.effects if e[0] == "call" and re.search(r"Iterator::next$", e[1])]
+                if not nx:
+                    continue
+                d = shape(dp, p, lambda t: D.mentions(t, lambda x: x == nx[-1]))
+                if not d:
+                    continue
+                n_sel += 1
+                if p.cut and not harmless(d):
                     skipped_failed.append(d)
+                if not p.cut and D.is_variant(p.ret, "std::option::Option", "None"):
+                    skipped_failed.append({"?": "an examined event ends the search with None"})
     R.check(n_sel >= 4 and not skipped_failed, "junit/outcome-event-selection", sel[0] if sel else b, "only Log and non-failing After-hook events are skipped",
             f"JUnit skips {skipped_failed[:2]} when choosing the event that decides a test case's result: that failure is reported as success")
     table = {}
